@@ -20,7 +20,7 @@ func init() {
 			"readFrameHeader refuses while lim >= 0 and installs the second varint as lim; endFrame refuses lim != 0 and resets to -1; recordBytesRead tests lim < 0 after the subtraction on every path to a nil return and reports errH3FrameError; " +
 			"stream.Read/ReadByte map EOF inside a frame and other read errors to errH3FrameError and return nil only without error; readVarint maps a truncated continuation to errH3FrameError; " +
 			"discardUnknownFrame has a case for every frameType constant, each refusing before discardFrame; discardFrame iterates to lim, resets lim to -1 before returning nil and reports errH3FrameError; " +
-			"bodyReader.Read: stream.Read only with lim >= 0, the buffer clamped to lim under len(p) > lim, after a frame header body bytes are read only through the DATA case or after discardUnknownFrame, endFrame only at lim == 0, " +
+			"bodyReader.Read: stream.Read only with lim >= 0, the buffer handed to stream.Read is the caller's buffer or a slice of it of length <= lim (guarded merge or min()) and every reslice of it stays within len(p), after a frame header body bytes are read only through the DATA case or after discardUnknownFrame, endFrame only at lim == 0, " +
 			"the sticky error is tested before any stream access and stored by the deferred function; readSettings: frame type and header error tested first, varints read only while lim > 0, reserved identifiers 2..5 refused before the callback, endFrame on the exit path; " +
 			"writeVarint/readVarint case table (thresholds 2^(8n-2)-1, n = 1,2,4,8 bytes, tag log2(n)<<6, descending shifts; reader mask 0x3f, length 1<<(b>>6), v<<8|b); " +
 			"no peer-sized make reachable from the frame/settings readers; reviewed panic-site inventory for them.",
@@ -75,9 +75,15 @@ func c35(c *Ctx) {
 	c.CallAfter(rd, Calls(qRead), ST+"recordBytesRead")
 	c.Count(rd, rec.ArgIs(1, "Read($r.stream,$0)#0"), 1, 1)
 	c.ErrChecked(rd, rec, -1, RetOK())
-	c.Reject(rd, RetOK(), "Read($r.stream,$0)#1 == io.EOF", "$r.lim > 0")
+	// EOF inside a frame never yields a nil error. io.EOF is a non-nil sentinel (errors.New), so
+	// err == io.EOF implies err != nil: the implied atom is part of the assumption, which lets both the
+	// dominance form (a leading `if err == nil { return n, nil }`) and the path evaluation (which
+	// does not know that io.EOF differs from nil) discard the no-error exit.
+	c.Reject(rd, RetOK(), "Read($r.stream,$0)#1 == io.EOF", "Read($r.stream,$0)#1 != nil", "$r.lim > 0")
 	c.Count(rd, c.EdgeWhere("$r.lim > 0", "Read($r.stream,$0)#1 == io.EOF"), 1, 1)
-	c.NeverAfter(rd, c.Edge("Read($r.stream,$0)#1 != nil"), RetOK(), true)
+	// any other read error never yields a nil error (the nil return after a non-nil error is legitimate
+	// exactly for EOF at a frame end, so the rule is stated over the error value, not over "after the err != nil edge")
+	c.Reject(rd, RetOK(), "Read($r.stream,$0)#1 != nil", "Read($r.stream,$0)#1 != io.EOF")
 	c.Guard(rd, RetTerm(1, "io.EOF"), "Read($r.stream,$0)#1 == io.EOF", "$r.lim <= 0", "$r.lim != 0")
 	c.Count(rd, RetTerm(1, fe), 2, -1)
 
@@ -157,8 +163,12 @@ func c35(c *Ctx) {
 	stRead := Calls(rd)
 	fData, _ := c.P.ConstInt(h3 + "frameTypeData")
 	c.Guard(br, stRead, "$r.st.lim >= 0")
-	c.Guard(br, Indexing("$0"), "len($0) > $r.st.lim")
-	c.Count(br, stRead.ArgIs(1, "φ($0|$0[:$r.st.lim])"), 1, 1)
+	// the clamp, over values: the caller's buffer is only ever resliced within its length
+	// (`if len(p) > lim { p = p[:lim] }` establishes lim < len(p); `p[:min(len(p), lim)]` is bounded by construction),
+	// and what reaches stream.Read is p or a slice of p of length <= lim (on the edge where the unsliced p
+	// arrives the branch facts give len(p) <= lim; a slice p[:h] has h <= lim).
+	c.H3qSlicesInBounds(br, "$0")
+	c.H3qBufClamped(br, stRead, 1, "$0", "$r.st.lim")
 	c.PassBetween(br, Calls(fh), stRead, Union(c.Edge(fmt.Sprintf("readFrameHeader($r.st)#0 == %d", fData)), Calls(du)), false)
 	c.ErrChecked(br, Calls(du), -1, Union(stRead, Calls(fh)))
 	c.Guard(br, Calls(ef), "$r.st.lim == 0")
